@@ -3,7 +3,12 @@ declare -A CH
 CH[r1]="C14 C04 C01 C05"; CH[r2]="C16 C01 C06"; CH[r3]="C15 C01"; CH[r4]="C17 C01 C02"; CH[r5]="C19"; CH[r6]="C20"
 CH[r7]="C01 C02 C05 C06 C07 C03 C04 C08"; CH[r8]="C03 C08 C01 C07"; CH[r9]="C12 C10 C09 C13"; CH[r10]="C10 C12 C13 C09"
 CH[r11]="C11 C09 C13"; CH[r12]="C01 C02 C05 C06 C04"; CH[r13]="C09 C10"; CH[r14]="C18 C15 C01"
-for r in r1 r2 r3 r4 r5 r6 r7 r8 r9 r10 r11 r12 r13 r14; do
+# batch 2
+CH[r15]="C01 C02 C05 C06 C07 C04"; CH[r16]="C01 C02 C05 C06 C07 C04"; CH[r17]="C01 C02 C05 C06 C07 C04"; CH[r18]="C01 C02 C03 C08"
+CH[r19]="C01 C06 C03 C07"; CH[r20]="C08 C03 C01"; CH[r21]="C16 C08 C01"; CH[r22]="C15 C01"; CH[r23]="C14 C01 C04"; CH[r24]="C20"
+CH[r25]="C19"; CH[r26]="C10 C12 C13 C09"; CH[r27]="C11 C09 C13"; CH[r28]="C11 C09"
+LIST="$@"; [ -z "$LIST" ] && LIST=$(seq -f 'r%g' 1 28)
+for r in $LIST; do
   WT=/tmp/negwt.$r; git -C /repo worktree add -q --detach $WT HEAD
   (cd $WT && git apply /verif/refactors/$r/patch.diff) || { echo "$r PATCH DOES NOT APPLY"; git -C /repo worktree remove --force $WT; continue; }
   for c in ${CH[$r]}; do
